@@ -718,7 +718,28 @@ def rule_l(ctx):
     ctx.floor(R, 2)
 
 
+def rule_m(ctx):
+    R = "C08.m"
+    ctx.rule(R, "the direct back-end factorises with SuperLU's default (partial) pivoting: splu is called without pivoting options -- the full saddle-point "
+             "system is indefinite, and a relaxed threshold (diag_pivot_thresh < 1) that is harmless for the Schur complements leaves an O(1) residual there, so "
+             "the formulations no longer agree")
+    m = ctx.model
+    n = 0
+    for f in m.cls(WAS, BASE).methods.values():
+        for c in ast.walk(f.node):
+            if isinstance(c, ast.Call) and norm(c.func).endswith("linalg.splu"):
+                n += 1
+                ctx.instance(R)
+                opts = [k for k in c.keywords if k.arg in ("diag_pivot_thresh", "options", "permc_spec", "relax", "panel_size")]
+                const_bad = [k for k in opts if k.arg == "diag_pivot_thresh" and isinstance(k.value, ast.Constant) and isinstance(k.value.value, (int, float)) and k.value.value < 1]
+                ctx.ob(R, f.qname, f"`{norm(c)[:60]}` uses the default pivoting", not opts,
+                       (f"diag_pivot_thresh={const_bad[0].value.value}: diagonal pivots are accepted whatever their size -- unstable for the indefinite full system" if const_bad else f"options {[k.arg for k in opts]} not found among the defaults"),
+                       c, evidence=bool(const_bad))
+    ctx.floor(R, 1)
+
+
 def run(ctx):
+    ctx.guard(rule_m, ctx)
     from .common import rule_abs_tolerance
     ctx.guard(rule_abs_tolerance, ctx, "C08.j", [f for f in ctx.model.cls(WAS, BASE).methods.values()] + [f for k in ctx.model.mod("darsia.utils.linalg").classes.values() for f in k.methods.values()], "all formulations must agree for every positive weighting and right-hand side")
     m = ctx.model
